@@ -169,16 +169,18 @@ CHECKS = {
  'C04': ("Lean 4 theorems (Props/C04.lean) prove, for every width n and all operands, that each operator of the Bits model returns the "
          "unsigned result mod 2^n (comparisons 1 bit), that width mismatches and ints that do not fit are errors, that construction/@=/<<= "
          "accept exactly -2^(n-1)..2^n-1, and that every stored value stays in [0,2^n); the model is tied to PythonBits.py on every run by "
-         "differential execution of every operator/operand form (40k cases quick, 1.2M + exhaustive n<=4 thorough) with an independent big-int oracle.",
+         "differential execution of every operator/operand form (40k cases quick, 1.2M + exhaustive n<=4 thorough) with an independent big-int oracle, AND by a translator "
+         "(tools/py2lean_bits.py) that regenerates Lean definitions from PythonBits.py on every run, each proved equal to the model (Props/C04Gen.lean): a changed operator breaks its equality proof.",
          "Trusted: Lean kernel + {propext, Classical.choice, Quot.sound}; the hand-written model Model/Bits.lean (Python `& mask` modelled as `% 2^n`); "
          "the correspondence harness; pure-Python Bits (no mamba).",
-         "Lean 4 proof over a hand-written model + differential correspondence check", "DESIGN.md §5 C04"),
+         "Lean 4 proof over a hand-written model + Python-to-Lean translator with proved equality to the model + differential correspondence check", "DESIGN.md §5 C04, §9"),
  'C05': ("Lean 4 theorems (Props/C05.lean) prove for every width and value: a valid slice/bit read returns exactly the named bits, a write changes "
          "exactly those bits (Nat.testBit characterisation) and reads back, every bound outside 0<=lo<hi<=n, every step and every too-wide value is an "
          "error, concat/zext/sext/trunc/reduce_* equal their bit-level definitions and clog2 is the least k with 2^k>=N; tied to the code by "
-         "differential execution incl. exhaustive bound squares for n<=4 (quick) / n<=6 (thorough).",
+         "differential execution incl. exhaustive bound squares for n<=4 (quick) / n<=6 (thorough), and by the same Python-to-Lean translator as C04 for __getitem__/__setitem__ and helpers.py "
+         "(generated definitions proved equal to the model in Props/C04Gen.lean).",
          "Trusted: Lean kernel + standard axioms; Model/Bits.lean slicing/helpers part; harness. clog2 float fallback (non-integer argument) not modelled.",
-         "Lean 4 proof over a hand-written model + differential correspondence check", "DESIGN.md §5 C05"),
+         "Lean 4 proof over a hand-written model + Python-to-Lean translator with proved equality to the model + differential correspondence check", "DESIGN.md §5 C05, §9"),
 }
 
 NOT_YET = {}
